@@ -819,7 +819,7 @@ func (s *sys) Fingerprint() string {
 	}
 	fmt.Fprintf(&sb, " |cur=%s idle=%d nin=%d subs=%d oldCust=%v api=%v ps=%d", k, s.curIdle, s.nin, len(s.subs), s.oldCust != nil, s.apiOn, s.w.PsExpected)
 	pend, live := s.pullDials()
-	fmt.Fprintf(&sb, " dials=%d/%d", len(pend), len(live))
+	fmt.Fprintf(&sb, " dials=%d/%d live[%s]", len(pend), len(live), s.w.LivenessSig())
 	for _, b := range s.subs {
 		fmt.Fprintf(&sb, " sub[%d]", minI(len(b.gotIdx), 2))
 	}
